@@ -116,6 +116,7 @@ func init() {
 		RunPoolUAF(p, r, compileScopePkg)
 		RunStateReset(p, r)
 		RunStateHook(p, r)
+		RunOperandState(p, r)
 		r.RequireMin("STATE-RESET", 9)
 		r.RequireMin("POOL-UAF", 3)
 		r.RequireMin("DET-MAPRANGE", 20)
